@@ -94,6 +94,7 @@ func runC10(r *Run) {
 		}
 	}
 
+	r.Breadcrumb("legacy IN/OUT request orderings and malformed HTTP against the in-process handler")
 	// ---- 2. API tier: legacy IN/OUT orderings and raw junk against the real HTTP handler
 	r.TierRan("api")
 	errLog := &lockedBuf{}
@@ -360,6 +361,109 @@ func runC10(r *Run) {
 					r.Dist("binary:" + conf)
 				}
 			}
+		}
+		// an open, busy tunnel: the host streams while the client, reading slowly, sends keep-alives,
+		// payloads and junk. A panic in the relay goroutine (nothing recovers there) ends the process.
+		for _, tlsOn := range []bool{true} {
+			host := newHostListener()
+			port := freePort()
+			ta := false
+			y := &gwYaml{port: port, tlsOn: tlsOn, auth: []string{"local"}, hosts: []string{host.addr}, hostSelection: "any", sock: sock, tokenAuth: &ta, certFile: cert, keyFile: key}
+			p := startBinary(dir, y.render(), nil, port, tlsOn)
+			if !p.running() {
+				r.Violation("c10-binary-start", "a supported configuration did not start", p.stderr.String())
+				host.close()
+				continue
+			}
+			basic := "Basic " + base64.StdEncoding.EncodeToString([]byte("alice:wonderland"))
+			for round := 0; round < r.N(3, 30) && p.running(); round++ {
+				host.poll()
+				host.reset()
+				c, err := p.dial()
+				if err != nil {
+					break
+				}
+				br := bufio.NewReader(c)
+				resp := rawRequest(c, br, "RDG_OUT_DATA", fmt.Sprintf("localhost:%d", port), []string{basic}, true)
+				if !resp.upgraded {
+					c.Close()
+					r.Inconclusive()
+					continue
+				}
+				w := &wsClient{c: c, br: br}
+				_, hp := splitHostPort(host.addr)
+				for _, pk := range [][]byte{mkPacket(tHandshake, bodyHandshake(1, 0, 0, 0)), mkPacket(tTunnel, bodyTunnelCreate(0, 0, nil)), mkPacket(tAuth, bodyTunnelAuth(append(utf16le("PC"), 0, 0))), mkPacket(tChannel, bodyChannel(hp, append(utf16le("127.0.0.1"), 0, 0)))} {
+					w.send(pk)
+				}
+				if !waitFor(4*time.Second, func() bool { host.poll(); return len(host.conns) > 0 }) {
+					c.Close()
+					r.Inconclusive()
+					continue
+				}
+				hc := host.conns[0]
+				stop := make(chan struct{})
+				go func() { // the host streams
+					chunk := make([]byte, 4000)
+					for {
+						select {
+						case <-stop:
+							return
+						default:
+						}
+						hc.c.SetWriteDeadline(time.Now().Add(50 * time.Millisecond))
+						if _, err := hc.c.Write(chunk); err != nil && !isTimeout(err) {
+							return
+						}
+					}
+				}()
+				// the client does not read for a while (the gateway's writes towards it fill the socket
+				// buffers and block) and keeps sending
+				time.Sleep(time.Duration(20+60*(round%3)) * time.Millisecond)
+				for k := 0; k < 300 && p.running(); k++ {
+					switch rng.Intn(4) {
+					case 0, 1:
+						w.send(mkPacket(tKeepalive, nil))
+					case 2:
+						w.send(mkPacket(tData, bodyData(randBytes(rng.Intn(200)))))
+					default:
+						w.send(mkPacket(rng.Intn(0x14), randBytes(rng.Intn(12))))
+					}
+					if k%50 == 49 {
+						time.Sleep(10 * time.Millisecond)
+					}
+				}
+				go func() { // now drain
+					buf := make([]byte, 65536)
+					for {
+						c.SetReadDeadline(time.Now().Add(300 * time.Millisecond))
+						if _, err := br.Read(buf); err != nil {
+							return
+						}
+					}
+				}()
+				time.Sleep(150 * time.Millisecond)
+				close(stop)
+				c.Close()
+				r.Count(fmt.Sprintf("bin-active:%d", round))
+			}
+			alive := false
+			if p.running() {
+				if c, err := p.dial(); err == nil {
+					c.SetDeadline(time.Now().Add(3 * time.Second))
+					resp := rawRequest(c, bufio.NewReader(c), "GET", fmt.Sprintf("localhost:%d", port), nil, false)
+					alive = resp.status > 0
+					c.Close()
+				}
+			}
+			p.stop()
+			host.close()
+			se := p.stderr.String()
+			if !alive {
+				r.Violation("c10-binary-dead", "the gateway process stopped serving: a busy tunnel (host streaming, client sending keep-alives, payloads and junk while reading slowly) brought it down", "tls=true authentication=[local]\n"+tail(se, 3000))
+			} else if strings.Contains(se, "fatal error:") || strings.Contains(se, "panic:") || strings.Contains(se, "http: panic serving") {
+				r.Violation("c10-binary-panic", "the gateway process hit a runtime panic on a busy tunnel", tail(se, 3000))
+			}
+			r.Dist("binary:busy-tunnel")
 		}
 	}
 }
